@@ -78,12 +78,7 @@ theorem coreInv_dagInit (c : Ctx) (s : St) (obs : List Obs) (d : DagRef) (below 
   unfold dagInit
   simp only []
   have h0 : CoreInv (s.noteOrder (validOrder c.P s d c.ord)).core := by simpa using h
-  have h2 : CoreInv (if d.isRec = true then (s.noteOrder (validOrder c.P s d c.ord)).hide c.ord
-      else s.noteOrder (validOrder c.P s d c.ord)).core := by
-    split
-    · exact coreInv_hide h0 _
-    · exact h0
-  split <;> simpa using h2
+  split <;> simpa using h0
 
 theorem coreInv_switchStart (c : Ctx) (s : St) (obs : List Obs) (d : DagRef) (n : Node) (below : List Frame)
     (h : CoreInv s.core) : CoreInv (switchStart c s obs d n below).1.core := by
@@ -102,6 +97,7 @@ theorem coreInv_recIter (c : Ctx) (s : St) (obs : List Obs) (d : DagRef) (n star
   simp only []
   split
   · apply coreInv_dagInit
+    apply coreInv_hide
     simpa using h
   · split
     · apply coreInv_nodeStart
@@ -117,8 +113,11 @@ theorem coreInv_recStart (c : Ctx) (s : St) (obs : List Obs) (d : DagRef) (n : N
     · simpa using h
     · split
       · simpa using h
-      · apply coreInv_recIter
-        simpa using h
+      · simp only []
+        split
+        · simpa using h
+        · apply coreInv_recIter
+          simpa using h
 
 theorem coreInv_stepTask (c : Ctx) (s : St) (out : Out) (h : CoreInv s.core)
     (hs : stepTask c s = some out) : CoreInv out.1.core := by
